@@ -2,7 +2,7 @@
 
    In the agent the field values of a record are views into the record's backing buffer, which comes from a
    pool (base.LogAllocator) and is overwritten by later input once the record has been released.  The pipeline
-   id / queue name, the tag and the key_* metric labels are built once from the key values of the first record
+   id / queue name, the tag and the key_* metric labels (strings.ToValidUTF8 of the key values) are built once from the key values of the first record
    of a key set and live as long as the pipeline.  This model keeps strings as *references*: an owned copy, a
    view into a buffer of the heap, or a Go substring of another string (which shares its memory), and reads
    them only when they are observed.  [keep] is the line
@@ -10,6 +10,7 @@
    of LocalCachedMap.GetOrCreate: deep = true is the code, deep = false a copy of the slice only.
    No proofs in this file. *)
 From SV Require Import Model.Common Model.Routing.
+From SV Require Model.Utf8.
 Open Scope N_scope.
 
 Local Notation "x <- e ;; f" := (obind e (fun x => f)) (at level 61, e at next level, right associativity).
@@ -30,8 +31,13 @@ Fixpoint read (h : heap) (v : sval) : bytes :=
 
 Definition keep (deep : bool) (h : heap) (v : sval) : sval := if deep then Owned (read h v) else v.
 
+(* strings.ToValidUTF8(v, "") on a reference: the "fast path for unchanged input" returns the argument itself
+   (it shares v's memory) when v is valid at that moment; otherwise a new string is built *)
+Definition m_label_value (h : heap) (v : sval) : sval :=
+  if Utf8.valid (read h v) then v else Owned (Utf8.to_valid_utf8 (read h v)).
+
 (* a pipeline as it is stored: references *)
-Record mpipe := { mp_keys : list sval; mp_id : sval; mp_tag : sval }.
+Record mpipe := { mp_keys : list sval; mp_id : sval; mp_tag : sval; mp_labels : list sval }.
 
 Record rstate := {
   rs_heap : heap;
@@ -77,7 +83,8 @@ Definition m_get_or_create (deep : bool) (parts : list tpart) (st : rstate) (ks 
       tag <- m_build_tag parts h perm ;;
       let i := length (rs_pipes st) in
       Ok ({| rs_heap := h; rs_map := (mk, i) :: rs_map st; rs_local := (mk, i) :: rs_local st;
-             rs_pipes := rs_pipes st ++ [{| mp_keys := perm; mp_id := m_join h perm; mp_tag := tag |}] |}, i)
+             rs_pipes := rs_pipes st ++ [{| mp_keys := perm; mp_id := m_join h perm; mp_tag := tag;
+                                            mp_labels := map (m_label_value h) perm |}] |}, i)
     end
   end.
 
@@ -118,7 +125,8 @@ Fixpoint m_run (deep : bool) (parts : list tpart) (st : rstate) (evs : list even
 (* what is seen when the pipelines are looked at, with the heap as it is then *)
 Definition observe (st : rstate) : list pipeline :=
   map (fun p => {| p_keys := map (read (rs_heap st)) (mp_keys p); p_id := read (rs_heap st) (mp_id p);
-                   p_tag := read (rs_heap st) (mp_tag p) |}) (rs_pipes st).
+                   p_tag := read (rs_heap st) (mp_tag p);
+                   p_labels := map (read (rs_heap st)) (mp_labels p) |}) (rs_pipes st).
 
 (* ---------------------------------------------------------------------------------------------- *)
 (* correspondence kind 7: every record is parsed into the same (recycled) buffer 0, its key values are
@@ -157,7 +165,7 @@ Definition run_pooled (c : case) : bytes :=
             str_ok ++ colon :: pipes_out false pipes ++ 35 :: join comma (map dec_nat is)
           else
             str_ok ++ colon :: join 59 (map (fun i => match nth_error pipes i with
-                                                      | Some p => hex (p_tag p) ++ 47 :: hex_tuple (p_keys p)
+                                                      | Some p => hex (p_tag p) ++ 47 :: hex_tuple (p_labels p)
                                                       | None => dash
                                                       end) is)
         | _ => str_panic
